@@ -118,6 +118,8 @@ class Fn(object):
     def __init__(self, world, mod, clsname, fn, known_funcs):
         self.w, self.mod, self.cls, self.fn, self.known = world, mod, clsname, fn, known_funcs
         self.unknown = []
+        self.prim_codec = True      # scsi_ba_to_int / scsi_int_to_ba are primitives of the model (False inside converter.py itself)
+        self.outparam = None        # a parameter the function changes in place INSTEAD of returning a value (converter.py): the model returns it
         self.locals = {a.arg for a in fn.args.args + fn.args.kwonlyargs}
         if fn.args.vararg:
             self.locals.add(fn.args.vararg.arg)
@@ -225,6 +227,12 @@ class Fn(object):
             for p in parts[1:]:
                 acc = "(EBin BAdd %s %s)" % (acc, p)
             return acc
+        if isinstance(e, (ast.GeneratorExp, ast.ListComp)):
+            if len(e.generators) == 1:
+                g = e.generators[0]
+                if not g.ifs and not g.is_async and isinstance(g.target, ast.Name):
+                    return "(EComp %s %s %s)" % (self.ex(e.elt), coq_str(g.target.id), self.ex(g.iter))
+            return self.eunk(e)
         if isinstance(e, ast.Call):
             return self.call(e)
         return self.eunk(e)
@@ -247,9 +255,13 @@ class Fn(object):
         if not self.is_local(f) or isinstance(f, ast.Name) and f.id not in self.locals:
             if base == "len" and d == "len" and nargs == 1 and not nkw:
                 return "(ELen %s)" % self.ex(e.args[0])
-            if base == "scsi_ba_to_int" and nargs == 1 and not nkw:
+            if d == "reversed" and nargs == 1 and not nkw:
+                return "(EReversed %s)" % self.ex(e.args[0])
+            if d == "sum" and nargs == 1 and not nkw:
+                return "(ESum %s)" % self.ex(e.args[0])
+            if base == "scsi_ba_to_int" and nargs == 1 and not nkw and self.prim_codec:
                 return "(EBaToInt %s)" % self.ex(e.args[0])
-            if base == "scsi_int_to_ba" and nargs in (1, 2) and not nkw:
+            if base == "scsi_int_to_ba" and nargs in (1, 2) and not nkw and self.prim_codec:
                 return "(EIntToBa %s %s)" % (self.ex(e.args[0]), self.ex(e.args[1]) if nargs == 2 else "(EConst (PInt 4))")
             if d == "bytearray" and nargs <= 1 and not nkw:
                 return "(EBytearray %s)" % (self.ex(e.args[0]) if nargs else "(EConst (PBytes []))")
@@ -284,13 +296,22 @@ class Fn(object):
             return node.id, list(reversed(path))
         return None, None
 
-    def block(self, stmts):
+    def block(self, stmts, loop=False):
+        """loop=True: the statements are the body of a loop; `if c: continue` directly in it is rewritten to
+        `if c: pass  else: <the rest of the body>` (the only form of `continue` the translator accepts)"""
         out = []
-        for s in stmts:
+        for i, s in enumerate(stmts):
             if isinstance(s, ast.Expr) and isinstance(s.value, ast.Constant):
                 continue
+            if loop and isinstance(s, ast.If) and not s.orelse and len(s.body) == 1 and isinstance(s.body[0], ast.Continue):
+                out.append("SIf %s\n     []\n     %s" % (self.ex(s.test), self.block(stmts[i + 1:], loop=True)))
+                break
             out += self.stmt(s)
         return "[%s]" % ";\n      ".join(out)
+
+    @staticmethod
+    def pure(node):
+        return not any(isinstance(n, (ast.Call, ast.Await, ast.Yield, ast.YieldFrom, ast.NamedExpr)) for n in ast.walk(node))
 
     def stmt(self, s):
         if isinstance(s, ast.Pass):
@@ -310,11 +331,16 @@ class Fn(object):
         if isinstance(s, ast.While):
             if s.orelse:
                 return [self.sunk(s)]
-            return ["SWhile %s\n     %s" % (self.ex(s.test), self.block(s.body))]
+            return ["SWhile %s\n     %s" % (self.ex(s.test), self.block(s.body, loop=True))]
         if isinstance(s, ast.For):
             if s.orelse or not isinstance(s.target, ast.Name):
                 return [self.sunk(s)]
-            return ["SFor %s %s\n     %s" % (coq_str(s.target.id), self.ex(s.iter), self.block(s.body))]
+            it = s.iter
+            # for k in d.keys()  ==  for k in d      (d a local dictionary; the model iterates a dict over its keys)
+            if isinstance(it, ast.Call) and isinstance(it.func, ast.Attribute) and it.func.attr == "keys" and not it.args and not it.keywords \
+                    and isinstance(it.func.value, ast.Name) and it.func.value.id in self.locals:
+                it = it.func.value
+            return ["SFor %s %s\n     %s" % (coq_str(s.target.id), self.ex(it), self.block(s.body, loop=True))]
         if isinstance(s, ast.Delete):
             out = []
             for t in s.targets:
@@ -327,6 +353,12 @@ class Fn(object):
             op = BINOPS.get(type(s.op))
             if op and isinstance(s.target, ast.Name) and s.target.id in self.locals:
                 return ["SAug %s %s %s" % (coq_str(s.target.id), op, self.ex(s.value))]
+            # x[p..][k] op= e   ->   x[p..][k] = x[p..][k] op e      (index expressions without calls: evaluated twice, same value)
+            if op and isinstance(s.target, ast.Subscript) and not isinstance(s.target.slice, ast.Slice) and self.pure(s.target):
+                x, path = self.lval_path(s.target)
+                if x is not None:
+                    return ["SStore %s [%s] %s (EBin %s %s %s)" % (coq_str(x), "; ".join(self.ex(p) for p in path[:-1]), self.ex(path[-1]),
+                                                                   op, self.ex(s.target), self.ex(s.value))]
             return [self.sunk(s)]
         if isinstance(s, ast.Assign):
             if len(s.targets) != 1:
@@ -334,6 +366,8 @@ class Fn(object):
             t, v = s.targets[0], s.value
             if isinstance(t, ast.Name):
                 return ["SAssign %s %s" % (coq_str(t.id), self.ex(v))]
+            if isinstance(t, (ast.Tuple, ast.List)) and t.elts and all(isinstance(x, ast.Name) for x in t.elts):
+                return ["SUnpack [%s] %s" % ("; ".join(coq_str(x.id) for x in t.elts), self.ex(v))]
             if isinstance(t, ast.Subscript):
                 if isinstance(t.slice, ast.Slice):
                     if isinstance(t.value, ast.Name) and t.value.id in self.locals and t.slice.step is None:
@@ -362,6 +396,11 @@ class Fn(object):
             if isinstance(c.func, ast.Attribute) and c.func.attr in ("update", "append") and len(c.args) == 1 and not c.keywords:
                 x, path = self.lval_path(c.func.value) if isinstance(c.func.value, ast.Subscript) else \
                     ((c.func.value.id, []) if isinstance(c.func.value, ast.Name) and c.func.value.id in self.locals else (None, None))
+                a0 = c.args[0]
+                if x is not None and c.func.attr == "update" and isinstance(a0, ast.Dict) and len(a0.keys) == 1 and a0.keys[0] is not None \
+                        and not (isinstance(a0.keys[0], ast.Constant) and isinstance(a0.keys[0].value, str)):
+                    # x.update({k: v})  ==  x[k] = v
+                    return ["SStore %s [%s] %s %s" % (coq_str(x), "; ".join(self.ex(p) for p in path), self.ex(a0.keys[0]), self.ex(a0.values[0]))]
                 if x is not None:
                     return ["%s %s [%s] %s" % ("SUpdate" if c.func.attr == "update" else "SAppend", coq_str(x),
                                                "; ".join(self.ex(p) for p in path), self.ex(c.args[0]))]
@@ -420,7 +459,9 @@ class Fn(object):
                                 mut.add(r)
                 if isinstance(s, ast.AugAssign):
                     r = root_name(s.target)
-                    if r:
+                    # `x >>= e`, `x <<= e`, `x //= e`, `x %= e` on a plain name rebind it: no built-in container defines these in place
+                    rebinds = isinstance(s.target, ast.Name) and isinstance(s.op, (ast.RShift, ast.LShift, ast.FloorDiv, ast.Mod))
+                    if r and not rebinds:
                         mut.add(r)
                 if isinstance(s, ast.Delete):
                     for t in s.targets:
@@ -455,7 +496,7 @@ class Fn(object):
                         for a in c.args:
                             captured |= {n for n in names_in_value(a) if n in self.locals}
             return captured
-        params = {a.arg for a in fn.args.args if a.arg not in ("cls", "self")}
+        params = {a.arg for a in fn.args.args if a.arg not in ("cls", "self") and a.arg != self.outparam}
         scan(fn.body, set())
         # a parameter that is changed in place (other than an out-buffer the model treats by value) is shared with the caller
         for s in ast.walk(fn):
@@ -470,7 +511,7 @@ class Fn(object):
 
     def translate(self):
         fn = self.fn
-        deco = [dotted(d) or "" for d in fn.decorator_list]
+        deco = [dotted(d.func if isinstance(d, ast.Call) else d) or "?" for d in fn.decorator_list]
         args = [a.arg for a in fn.args.args]
         if "staticmethod" not in deco and self.cls and args and args[0] in ("cls", "self"):
             if args[0] == "self":
@@ -478,7 +519,12 @@ class Fn(object):
             args = args[1:]
         nd = len(fn.args.defaults)
         defaults = [None] * (len(args) - nd) + list(fn.args.defaults)
-        if fn.args.vararg or fn.args.kwarg or fn.args.kwonlyargs:
+        odd = [d for d in deco if d not in ("classmethod", "staticmethod")]
+        if odd:
+            # a decorator replaces the function by something else (a cache, a wrapper): the body alone says nothing
+            self.unknown.append("decorator: @%s" % odd[0])
+            ps, body = [], "[SUnknown %s]" % coq_str("decorator: @%s" % odd[0])
+        elif fn.args.vararg or fn.args.kwarg or fn.args.kwonlyargs:
             ps, body = [], "[%s]" % self.sunk(fn.args.vararg or fn.args.kwarg or fn.args.kwonlyargs[0])
         else:
             ps = []
@@ -495,6 +541,12 @@ class Fn(object):
             if bad:
                 self.unknown.append("aliasing: " + bad[0])
                 body = "[SUnknown %s]" % coq_str(("aliasing: " + bad[0])[:140])
+            elif self.outparam:
+                if any(isinstance(n, ast.Return) for n in ast.walk(fn)) or self.outparam not in args:
+                    self.unknown.append("out-parameter convention: explicit return")
+                    body = "[SUnknown \"out-parameter convention: explicit return\"]"
+                else:
+                    body = self.block(fn.body)[:-1] + ";\n      SReturn (EVar %s)]" % coq_str(self.outparam)
             else:
                 body = self.block(fn.body)
         return "mkFun [%s]\n     %s" % ("; ".join(ps), body)
@@ -534,4 +586,42 @@ def gen_pyfuncs(mods):
                          line=fn.lineno, file=mod.rel))
     lines.append("Definition py_program : program := [\n  %s].\n" % ";\n  ".join("(%s, %s)" % (coq_str(q), i) for q, i in defs))
     lines.append("Definition py_unknown : list string := [\n  %s].\n" % ";\n  ".join(coq_str(u[:160]) for u in unknown))
+    return "\n".join(lines), dict(functions=info, unknown=unknown, import_ok=world.ok)
+
+
+# ------------------------------------------------------------------------------------------------ pyscsi/utils/converter.py
+CONVERTER_FUNCS = {"scsi_int_to_ba": None, "scsi_ba_to_int": None, "decode_bits": "result_dict", "encode_dict": "result"}
+
+
+def gen_pyconv(mods):
+    """the four functions of pyscsi/utils/converter.py as programs of Model/Py.v -> Gen/PyConv.v.  decode_bits / encode_dict change their
+    last argument in place and return nothing; the model (value semantics) makes them RETURN that argument (out-parameter convention)."""
+    world = World()
+    mod = [m for m in mods if m.rel.replace(os.sep, "/") == "pyscsi/utils/converter.py"]
+    lines = [HEADER.format(src="pyscsi/utils/converter.py (function bodies)", extra=" Model.Py").replace(
+        "From Coq Require Import String NArith List.", "From Coq Require Import String NArith ZArith List.")]
+    info, defs, unknown = [], [], []
+    if not world.ok:
+        unknown.append("the package does not import: " + world.err)
+    if not mod:
+        unknown.append("pyscsi/utils/converter.py not found")
+    else:
+        mod = mod[0]
+        fns = {n.name: n for n in mod.tree.body if isinstance(n, ast.FunctionDef)}
+        known = {"converter.%s" % n for n in fns}
+        for name, outp in CONVERTER_FUNCS.items():
+            if name not in fns:
+                unknown.append("converter.%s: not defined" % name)
+                continue
+            tr = Fn(world, mod, "", fns[name], known)
+            tr.prim_codec, tr.outparam = False, outp
+            body = tr.translate()
+            ident = "PC_" + name
+            lines.append("(* %s:%d *)\nDefinition %s : fundef :=\n  %s.\n" % (mod.rel, fns[name].lineno, ident, body))
+            defs.append(("converter." + name, ident))
+            for u in tr.unknown:
+                unknown.append("converter.%s: %s" % (name, u))
+            info.append(dict(qual="converter." + name, ident=ident, unknown=tr.unknown, line=fns[name].lineno, outparam=outp))
+    lines.append("Definition conv_program : program := [\n  %s].\n" % ";\n  ".join("(%s, %s)" % (coq_str(q), i) for q, i in defs))
+    lines.append("Definition conv_unknown : list string := [\n  %s].\n" % ";\n  ".join(coq_str(u[:160]) for u in unknown))
     return "\n".join(lines), dict(functions=info, unknown=unknown, import_ok=world.ok)
